@@ -25,7 +25,7 @@ ANCHORS = {
     "AdtSerializer<Output>::finish", "AdtSerializer<Output>::new", "AdtSerializer<Output>::new_v0",
     "AdtSerializer<Output>::record_field_index", "AdtSerializer<Output>::write_constructor",
     "AdtSerializer<Output>::write_evolution_header", "AdtSerializer<Output>::write_field",
-    "AdtSerializer<Output>::write_ordered_chunks", "DeserializationContext::new", "DeserializationContext::pop_region",
+    "DeserializationContext::new", "DeserializationContext::pop_region",
     "DeserializationContext::pos", "DeserializationContext::push_region", "DeserializationContext::try_read_ref",
     "DeserializationContext::state", "DeserializationContext::state_mut", "SerializationContext<Output>::state_mut",
     "FieldPosition::new", "FieldPosition::to_byte", "InputRegion::empty", "InputRegion::new", "RefId::next",
@@ -617,6 +617,9 @@ def model_call(info, args):
             if x[3] == "Some":
                 return ("agg", "adt", "core::ops::control_flow::ControlFlow", "Continue", [x[4][0]])
             return ("agg", "adt", "core::ops::control_flow::ControlFlow", "Break", [x])
+        if x[0] == "errprop":
+            # `?` applied to a value that is already a propagated error (returned by an inlined helper)
+            return ("agg", "adt", "core::ops::control_flow::ControlFlow", "Break", [("residual", x[1])])
         return ("try", args[0])
     if k.endswith("::from_residual") and args:
         x = args[0]
